@@ -220,6 +220,11 @@ fn process_case(case: &Value) -> Value {
     }
     drop(token_string);
 
+    if w("noparse") && !w("facts") && !w("pretty") {
+        // extension: skip the (expensive) syn parse of the output; parse_ok stays null
+        return Value::Object(out);
+    }
+
     let file = match guarded(|| syn::parse2::<syn::File>(tokens)) {
         Ok(Ok(f)) => {
             out.insert("parse_ok".into(), json!(true));
@@ -289,7 +294,7 @@ fn on_big_stack<T: Send + 'static>(f: impl FnOnce() -> T + Send + 'static) -> T 
 
 fn usage() -> ! {
     eprintln!(
-        "usage: gen_runner <cases.jsonl | ->\n       gen_runner --one <dsl|json|yaml|toml> <file> <name> [facts,pretty,tokens,mir]\n       gen_runner --facts <file.rs>      (facts of an arbitrary Rust source file, for debugging)"
+        "usage: gen_runner [--jobs N] <cases.jsonl | ->\n       gen_runner --one <dsl|json|yaml|toml> <file> <name> [facts,pretty,tokens,mir]\n       gen_runner --facts <file.rs>      (facts of an arbitrary Rust source file, for debugging)"
     );
     std::process::exit(2)
 }
@@ -345,6 +350,15 @@ fn main() {
         return;
     }
 
+    let mut args = args;
+    let mut jobs = 1usize;
+    if args.first().map(|s| s.as_str()) == Some("--jobs") {
+        jobs = match args.get(1).and_then(|n| n.parse::<usize>().ok()) {
+            Some(n) if n >= 1 => n,
+            _ => usage(),
+        };
+        args.drain(0..2);
+    }
     if args.len() != 1 {
         usage();
     }
@@ -360,21 +374,70 @@ fn main() {
         }
     };
 
-    on_big_stack(move || {
-        let reader = std::io::BufReader::new(input);
-        let stdout = std::io::stdout();
-        let mut w = BufWriter::with_capacity(1 << 16, stdout.lock());
-        for line in reader.lines() {
-            let res = match line {
-                Ok(l) => process_line(&l),
-                Err(e) => bad_input(Value::Null, format!("cannot read input line: {e}")),
-            };
-            // One line per case, flushed per case so that the output of all cases before a process-killing
-            // stack overflow is already out.
-            let _ = serde_json::to_writer(&mut w, &res);
-            let _ = w.write_all(b"\n");
+    if jobs == 1 {
+        // Sequential: the worker itself writes and flushes every line before it starts the next case, so that
+        // when a stack overflow kills the process the first missing output line is exactly the killer case.
+        on_big_stack(move || {
+            let reader = std::io::BufReader::new(input);
+            let stdout = std::io::stdout();
+            let mut w = BufWriter::with_capacity(1 << 16, stdout.lock());
+            for line in reader.lines() {
+                let res = match line {
+                    Ok(l) => process_line(&l),
+                    Err(e) => bad_input(Value::Null, format!("cannot read input line: {e}")),
+                };
+                let _ = serde_json::to_writer(&mut w, &res);
+                let _ = w.write_all(b"\n");
+                let _ = w.flush();
+            }
             let _ = w.flush();
+        });
+        return;
+    }
+
+    // Parallel: N big-stack workers pull line indices from a shared counter; the main thread writes the results
+    // in input order.  (After a process-killing stack overflow the first missing line need not be the killer.)
+    let lines: Vec<Result<String, String>> =
+        std::io::BufReader::new(input).lines().map(|l| l.map_err(|e| e.to_string())).collect();
+    let lines = std::sync::Arc::new(lines);
+    let next = std::sync::Arc::new(std::sync::atomic::AtomicUsize::new(0));
+    let (tx, rx) = std::sync::mpsc::channel::<(usize, String)>();
+    let mut handles = Vec::new();
+    for k in 0..jobs.min(lines.len().max(1)) {
+        let (lines, next, tx) = (lines.clone(), next.clone(), tx.clone());
+        let h = std::thread::Builder::new()
+            .name(format!("gen_runner-worker-{k}"))
+            .stack_size(STACK_BYTES)
+            .spawn(move || loop {
+                let i = next.fetch_add(1, std::sync::atomic::Ordering::SeqCst);
+                let Some(line) = lines.get(i) else { break };
+                let res = match line {
+                    Ok(l) => process_line(l),
+                    Err(e) => bad_input(Value::Null, format!("cannot read input line: {e}")),
+                };
+                if tx.send((i, res.to_string())).is_err() {
+                    break;
+                }
+            })
+            .expect("spawn worker");
+        handles.push(h);
+    }
+    drop(tx);
+    let stdout = std::io::stdout();
+    let mut w = BufWriter::with_capacity(1 << 16, stdout.lock());
+    let mut pending: std::collections::BTreeMap<usize, String> = std::collections::BTreeMap::new();
+    let mut want_idx = 0usize;
+    for (i, s) in rx {
+        pending.insert(i, s);
+        while let Some(s) = pending.remove(&want_idx) {
+            let _ = w.write_all(s.as_bytes());
+            let _ = w.write_all(b"\n");
+            want_idx += 1;
         }
         let _ = w.flush();
-    });
+    }
+    let _ = w.flush();
+    for h in handles {
+        let _ = h.join();
+    }
 }
